@@ -12,6 +12,10 @@ Where the queue slot is taken is a structural fact of the source that the transl
 (`Generated.HANDOFF_RESERVE_FIRST_*`):
 * `reserveFirst = false` (the tree after `fix:` D6): the task waits for a free slot only once
   the preamble is complete (`Sender::send().await`), so a task waiting for bytes holds nothing;
+* `timers`: whether anything in the driver is time-based. The translator finds no timer of any
+  kind in `wtransport/src/driver/` (`Generated.DRIVER_TIMER_FREE`), so a preamble task ends only
+  when its preamble is complete or its stream fails; `taskTimeout` is the transition a driver
+  with a preamble deadline would add (`Props/C08.preamble_deadline_loses_streams`).
 * `reserveFirst = true` (the pinned tree): the worker reserved the slot (`reserve_owned`) before
   accepting the stream and the task held it while waiting for bytes, so the number of tasks plus
   queued streams never exceeded `cap` — and `cap` streams stalled in their preamble blocked the
@@ -32,6 +36,7 @@ structure St where
   cap       : Nat
   stalled   : List Nat      -- ids whose preamble never completes (the peer sends nothing more)
   reserveFirst : Bool       -- is the queue slot taken before the preamble is read
+  timers    : Bool := false -- do the driver's tasks have time-based transitions (`Generated.DRIVER_TIMER_FREE` = none)
   deriving DecidableEq, Repr
 
 inductive Act
@@ -41,6 +46,7 @@ inductive Act
   | taskIoErr (id : Nat)     -- stream reset / connection lost while reading the preamble
   | appRecv                  -- an accept call completes
   | appCancel                -- a pending accept call is dropped (cancel-safe: no effect)
+  | taskTimeout (id : Nat)   -- a preamble task gives up after some time (only in a driver with timers)
   deriving DecidableEq, Repr
 
 def step (s : St) : Act → St
@@ -59,10 +65,12 @@ def step (s : St) : Act → St
     | [] => s
     | id :: rest => { s with queue := rest, delivered := id :: s.delivered }
   | .appCancel => s
+  | .taskTimeout id =>
+    if s.timers = true ∧ id ∈ s.tasks then { s with tasks := s.tasks.erase id, dropped := id :: s.dropped } else s
 
-def init (cap : Nat) (stalled : List Nat) (reserveFirst : Bool := false) : St :=
+def init (cap : Nat) (stalled : List Nat) (reserveFirst : Bool := false) (timers : Bool := false) : St :=
   { opened := [], backlog := [], tasks := [], queue := [], delivered := [], dropped := [], cap := cap,
-    stalled := stalled, reserveFirst := reserveFirst }
+    stalled := stalled, reserveFirst := reserveFirst, timers := timers }
 
 def run (s : St) (as : List Act) : St := as.foldl step s
 
